@@ -70,7 +70,7 @@ def main():
             shutil.rmtree(dcopy, ignore_errors=True)
             shutil.copytree("%s/demo%s" % (src, k), dcopy)
             demo = "cd %s && go mod edit -replace github.com/piotrnar/gocoin=%s && go test -count=1 -v . ; rc=$?; exit $rc" % (dcopy, wt)
-        demo = _re.sub(r"/tmp/seed/%s(?![-\w])" % cid, wt, demo)  # the agent's own checkout -> this scratch worktree
+        demo = _re.sub(r"%s/%s(?![-\w])" % (_re.escape(seedroot), cid), wt, demo)  # the agent's own checkout -> this scratch worktree
         import re
         bad = re.compile(r"^(--- FAIL|FAIL\b|panic:|fatal error:)", re.M)
         rc1, out1 = sh(demo, wt, timeout=1200)
